@@ -111,6 +111,10 @@ func genPlan(t *rapid.T) interface{} {
 		"SELECT max(i), min(i) FROM m0 WHERE time >= '2000-01-01T00:00:00Z' AND time < '2000-01-01T03:00:00Z' GROUP BY time(30m)",
 		"SELECT mean(f) FROM m0 WHERE time >= '2000-01-01T00:00:00Z' AND time < '2000-01-01T03:00:00Z' GROUP BY time(1h), a fill(none)",
 		"SELECT first(f), last(i) FROM m0 GROUP BY b",
+		"SELECT u FROM m0",
+		"SELECT sum(u), count(s) FROM m0, m1",
+		"SELECT s, bo FROM m1",
+		"SELECT last(s), first(bo) FROM m0 GROUP BY a",
 		"SHOW MEASUREMENTS",
 		"SHOW TAG KEYS",
 		"SHOW TAG VALUES WITH KEY = a",
@@ -135,7 +139,7 @@ func mkPoint(q point) (models.Point, model.Point) {
 		tags["b"] = q.B
 	}
 	ts := t0.Add(time.Duration(q.T))
-	mp := models.MustNewPoint(q.M, models.NewTags(tags), models.Fields{"f": q.F, "i": q.I}, ts)
+	mp := models.MustNewPoint(q.M, models.NewTags(tags), models.Fields{"f": q.F, "i": q.I, "u": uint64(q.I + 20), "s": fmt.Sprintf("s%d", q.I), "bo": q.I%2 == 0}, ts)
 	return mp, model.Point{}
 }
 
